@@ -253,7 +253,7 @@ class PackingSpace(Space):
             height: int = int(inst[item_id - 1, IDX_HEIGHT])
 
             if ((real_width != width) or (real_height != height)) \
-                    and ((real_width != height) and (real_height != width)):
+                    and ((real_width != height) or (real_height != width)):
                 raise ValueError(
                     f"Item coordinates ({x_left}, {y_bottom}, {x_right}, "
                     f"{y_top}) mean width={real_width} and height="
